@@ -14,7 +14,7 @@
    * built-in functions and methods with the arities and argument types of the tables in
      BUILTIN_FUNCTIONS / STRINGS / ARRAYS / NUMBERS;
    * functions are visible in the whole block that defines them (FUNCTIONS.md), take any
-     values and return any value; `return` only inside a function, `comot`/`next` only inside
+     values and return any value (null when the body has no `return e`); `return` only inside a function, `comot`/`next` only inside
      a loop of the same function.
    `simply_typed p = true` is the hypothesis of the acceptance half of C01. *)
 From Coq Require Import ZArith List Bool.
@@ -31,7 +31,8 @@ Definition ty_eqb (a b : ty) : bool :=
   end.
 
 Definition venv := list (list (name * ty)).      (* innermost block first; newest first *)
-Definition fenv := list (list (name * nat)).     (* functions of each enclosing block: name, arity *)
+Definition fenv := list (list (name * (nat * bool))).   (* functions of each enclosing block: name, arity,
+                                                           whether some `return e` occurs in the body *)
 
 Fixpoint assoc_ty (n : name) (sc : list (name * ty)) : option ty :=
   match sc with
@@ -45,13 +46,13 @@ Fixpoint lookup_ty (n : name) (e : venv) : option ty :=
   | sc :: r => match assoc_ty n sc with Some t => Some t | None => lookup_ty n r end
   end.
 
-Fixpoint assoc_fn (n : name) (sc : list (name * nat)) : option nat :=
+Fixpoint assoc_fn (n : name) (sc : list (name * (nat * bool))) : option (nat * bool) :=
   match sc with
   | [] => None
   | (m, a) :: r => if bytes_eqb m n then Some a else assoc_fn n r
   end.
 
-Fixpoint lookup_arity (n : name) (e : fenv) : option nat :=
+Fixpoint lookup_arity (n : name) (e : fenv) : option (nat * bool) :=
   match e with
   | [] => None
   | sc :: r => match assoc_fn n sc with Some a => Some a | None => lookup_arity n r end
@@ -193,7 +194,8 @@ Fixpoint ety (ve : venv) (fe : fenv) (e : expr) {struct e} : option ty :=
           | Some GCommand => None
           | None =>
               match lookup_arity f fe with
-              | Some a => if Nat.eqb a (length ts) then Some TDyn else None
+              | Some (a, rv) =>
+                  if Nat.eqb a (length ts) then Some (if rv then TDyn else TNull) else None
               | None => None
               end
           end
@@ -218,16 +220,28 @@ Fixpoint distinct_names (l : list name) : bool :=
   | n :: r => negb (mem_name n r) && distinct_names r
   end.
 
-(* the functions a block defines (name, arity); None when a name is defined twice or is a
-   built-in's name *)
-Fixpoint block_fns (b : list stmt) (acc : list (name * nat)) : option (list (name * nat)) :=
+(* does some `return e` occur in the body (nested function bodies excluded)?  A function
+   without one produces no value: its result is null (FUNCTIONS.md, NULL.md) *)
+Fixpoint returns_value (s : stmt) : bool :=
+  let any := fix any (b : list stmt) : bool :=
+               match b with [] => false | t :: r => returns_value t || any r end in
+  match s with
+  | SRet _ (Some _) => true
+  | SIf _ _ t f => any t || match f with Some fb => any fb | None => false end
+  | SLoop _ _ body => any body
+  | SBlock _ body => any body
+  | _ => false
+  end.
+
+(* the functions a block defines; None when a name is defined twice or is a built-in's name *)
+Fixpoint block_fns (b : list stmt) (acc : list (name * (nat * bool))) : option (list (name * (nat * bool))) :=
   match b with
   | [] => Some acc
-  | SFun _ n ps _ _ _ _ :: r =>
+  | SFun _ n ps body _ _ _ :: r =>
       if is_builtin_name n then None
       else match assoc_fn n acc with
            | Some _ => None
-           | None => block_fns r ((n, length ps) :: acc)
+           | None => block_fns r ((n, (length ps, existsb returns_value body)) :: acc)
            end
   | _ :: r => block_fns r acc
   end.
